@@ -6,7 +6,44 @@ from .common import (Ctx, call_name, dotted, is_name, kw, local_assignments, nor
                      sources_of)
 
 P = 'C11'
-FN = 'shuffle.Shuffle.global_setup'
+CLS = 'shuffle.Shuffle'
+
+
+def shuffle_fn(ctx):
+    """the hook method of the Shuffle feature that re-writes the selection state"""
+    from sa.srcmodel import AnalysisError
+    cls = ctx.model.cls(CLS)
+    found = [fi for fi in cls.methods.values() if any(
+        isinstance(n, ast.Subscript) and isinstance(n.ctx, ast.Store) and
+        'tests_by_layer_name' in norm(n.value) for n in ast.walk(fi.node))]
+    if len(found) != 1:
+        raise AnalysisError('anchor vanished: the method of shuffle.Shuffle that stores the shuffled '
+                            'suites in tests_by_layer_name (found %d)' % len(found))
+    return found[0]
+
+
+def hook_sequence(ctx):
+    """[(hook name, 'fwd'|'rev')] in the order in which Runner.run invokes the feature hooks"""
+    fr = ctx.model.func('runner.Runner.run')
+    seq = []
+
+    def visit(body):
+        for st in body:
+            if isinstance(st, ast.For) and 'self.features' in norm(st.iter):
+                for c in ast.walk(st):
+                    if isinstance(c, ast.Call) and isinstance(c.func, ast.Attribute) and \
+                            is_name(c.func.value, getattr(st.target, 'id', None)):
+                        seq.append((c.func.attr, 'rev' if 'reversed' in norm(st.iter) else 'fwd'))
+            elif isinstance(st, ast.Expr) and isinstance(st.value, ast.Call) and \
+                    norm(st.value.func) == 'self.run_tests':
+                seq.append(('<run_tests>', 'fwd'))
+            else:
+                for fld in ('body', 'orelse', 'finalbody'):
+                    visit(getattr(st, fld, []) or [])
+                for h in getattr(st, 'handlers', []) or []:
+                    visit(h.body)
+    visit(fr.node.body)
+    return seq
 
 
 def run(model, rep, tier):
@@ -36,7 +73,7 @@ def r1_permutation(ctx, rep, R='C11.R1'):
     rep.rule(R, 'permutation by construction: for each layer the new suite is built from '
              'list(<that layer\'s suite>) which is modified only by swap assignments '
              'L[i], L[j] = L[j], L[i], and stored back under the same layer key')
-    fi = ctx.model.func(FN)
+    fi = shuffle_fn(ctx)
     loops = [n for n in ast.walk(fi.node) if isinstance(n, ast.For) and
              'tests_by_layer_name' in norm(n.iter) and isinstance(n.target, ast.Tuple) and
              len(n.target.elts) == 2]
@@ -117,7 +154,7 @@ def r2_rng_discipline(ctx, rep, R='C11.R2'):
              'its seed() and random() methods are used (random() is the only primitive whose '
              'stream the standard library keeps stable across versions); no module-level random '
              'function and no clock is used while shuffling')
-    fi = ctx.model.func(FN)
+    fi = shuffle_fn(ctx)
     m = ctx.model
     rngs = [n for n in ast.walk(fi.node) if isinstance(n, ast.Assign) and
             isinstance(n.value, ast.Call) and
@@ -197,6 +234,23 @@ def r3_feature_order(ctx, rep, R='C11.R3'):
     rep.check(ok and not muts, R, 'the feature list is only filtered afterwards (order preserved)',
               'the feature list is reordered after registration', key='feature-order:kept',
               func=fi.qualname, where=ctx.where(fi, fi.node))
+    # the shuffle happens in the same hook as -- and, by registration order, before -- the layer
+    # filter (and in a hook that runs before the tests)
+    sf = shuffle_fn(ctx)
+    ff = ctx.model.func('filter.Filter.global_setup')
+    seq = hook_sequence(ctx)
+    names = [h for h, _d in seq]
+    pos = {h: i for i, h in reversed(list(enumerate(names)))}
+    okh = sf.name in pos and ff.name in pos and '<run_tests>' in pos and \
+        pos[sf.name] <= pos[ff.name] < pos['<run_tests>'] and \
+        (sf.name != ff.name or dict(seq)[sf.name] == 'fwd')
+    rep.check(okh, R, 'Shuffle.%s runs before Filter.%s drops the unselected layers (hook sequence %s)'
+              % (sf.name, ff.name, names),
+              'the suites are shuffled in hook %s, which Runner.run invokes after %s of every feature: '
+              'the layer filter (and a child\'s --resume-layer filter) has already removed layers, so '
+              'the random stream consumed by a layer depends on which other layers were selected '
+              '(hook sequence %s)' % (sf.name, ff.name, names), key='feature-order:hook',
+              func=sf.qualname, where=ctx.where(sf, sf.node))
     fr = ctx.model.func('runner.Runner.run')
     loops = [n for n in ast.walk(fr.node) if isinstance(n, ast.For) and any(
         isinstance(c, ast.Call) and isinstance(c.func, ast.Attribute) and c.func.attr == 'global_setup'
